@@ -815,7 +815,9 @@ fn call(f: &str, a: &[RVal]) -> Ev {
             }
             match civil_to_micros(p[0], p[1], p[2], p[3], p[4], p[5], p[6]) {
                 Some(t) => Ev::Val(RVal::Ts(t)),
-                None => Ev::Open("make_timestamp with out-of-range parts (NULL or error)"),
+                // a part outside its range: no timestamp (NULL, as the unchanged tree answers for month 13 or hour -1);
+                // never a timestamp made from a wrapped-around part
+                None => Ev::Val(RVal::Null),
             }
         }
         ("date_trunc", [x, y]) => match (x, y) {
